@@ -1,5 +1,6 @@
 import Verif.Common.Proto
 import Verif.C10.Model
+import Verif.C10.Attach
 /-!
 Line protocol of the C10 model driver (all strings hex-encoded, `-` = empty):
 
@@ -17,6 +18,15 @@ Line protocol of the C10 model driver (all strings hex-encoded, `-` = empty):
                                                       declaration on each of the lines 3 … nlines+2) that
                                                       the U1000 graph marks as used because of the
                                                       directives (`u1000Marked`)
+
+* `att <nNames> <name>* <nNodes> <node>* <nGroups> (<nComments> <comment>*)*`
+                                            → `<n> <directive>*`  the serialized directives of one
+                                                      file in comment order: `NewCommentMap` +
+                                                      `ParseDirectives` + `serializeDirective` (`pipeline`)
+  `<node>` = `<pos> <end> <srcpos> <endLine> <important 0|1>` (pre-order, as `ast.Inspect` visits),
+  `<comment>` = `<pos> <end> <srcpos> <endLine> <text>`,
+  `<srcpos>` = `<rawFile#> <rawLine> <rawCol> <adjFile#> <adjLine> <adjCol>` (file names by index
+  into the name table)
 
 `<diag>` = `<file> <line> <col> <cat> <msg> <sev e|w|i>`,
 `<directive>` = `<cmd> <nargs> <arg>* <dfile> <dline> <dcol> <nfile> <nline> <ncol>`.
@@ -71,6 +81,51 @@ def pDirective : P Directive := fun ts => do
   let (np, ts) ← pPos ts
   pure (⟨cmd, args, dp, np⟩, ts)
 
+def pSrcPos (names : Array String) : P SrcPos := fun ts => do
+  let (rf, ts) ← pNat ts
+  let (rl, ts) ← pNat ts
+  let (rc, ts) ← pNat ts
+  let (af, ts) ← pNat ts
+  let (al, ts) ← pNat ts
+  let (ac, ts) ← pNat ts
+  let rfn ← names[rf]?
+  let afn ← names[af]?
+  pure (⟨⟨rfn, rl, rc⟩, ⟨afn, al, ac⟩⟩, ts)
+
+def pBool : P Bool
+  | "0" :: r => some (false, r)
+  | "1" :: r => some (true, r)
+  | _ => none
+
+def pNodeRec (names : Array String) : P NodeRec := fun ts => do
+  let (pos, ts) ← pNat ts
+  let (e, ts) ← pNat ts
+  let (sp, ts) ← pSrcPos names ts
+  let (el, ts) ← pNat ts
+  let (imp, ts) ← pBool ts
+  pure (⟨0, pos, e, sp, el, imp⟩, ts)
+
+def pCommentRec (names : Array String) : P CommentRec := fun ts => do
+  let (pos, ts) ← pNat ts
+  let (e, ts) ← pNat ts
+  let (sp, ts) ← pSrcPos names ts
+  let (el, ts) ← pNat ts
+  let (text, ts) ← pStr ts
+  pure (⟨pos, e, sp, el, text⟩, ts)
+
+def pGroupRec (names : Array String) : P GroupRec := fun ts => do
+  let (cs, ts) ← pList (pCommentRec names) ts
+  pure (⟨cs⟩, ts)
+
+def numberNodes : List NodeRec → Nat → List NodeRec
+  | [], _ => []
+  | n :: ns, i => { n with id := i } :: numberNodes ns (i + 1)
+
+def showPos (p : Pos) : String := s!"{hexEncode p.file} {p.line} {p.col}"
+
+def showDirective (d : Directive) : String :=
+  " ".intercalate ([hexEncode d.cmd, toString d.args.length] ++ d.args.map hexEncode ++ [showPos d.dirPos, showPos d.nodePos])
+
 def showSev : Sev → String
   | .error => "e" | .warning => "w" | .ignored => "i"
 
@@ -124,6 +179,18 @@ def step (line : String) : String :=
       let al : String → Bool := fun c => allowed.contains c
       let ds := if succ = 1 then success al diags else diags
       showDiags (filterIgnored ds dirs al)
+    | none => "bad-op"
+  | "att" :: rest =>
+    match (do
+      let (names, ts) ← pList pStr rest
+      let names := names.toArray
+      let (nodes, ts) ← pList (pNodeRec names) ts
+      let (groups, ts) ← pList (pGroupRec names) ts
+      if ts ≠ [] ∨ groups.any (fun g => g.comments.isEmpty) then none else
+      pure (numberNodes nodes 0, groups)) with
+    | some (nodes, groups) =>
+      let ds := pipeline nodes groups
+      " ".intercalate (toString ds.length :: ds.map showDirective)
     | none => "bad-op"
   | "u1k" :: rest =>
     match (do
